@@ -232,6 +232,12 @@ class SV:
     def _bin(self, other, op, swap=False):
         ko = _numkind(other)
         if ko is None:
+            import numpy as _np
+            if isinstance(other, _np.ndarray):
+                out = _np.empty(other.shape, dtype=object)
+                for i in _np.ndindex(other.shape):
+                    out[i] = self._bin(other[i], op, swap)
+                return out
             return NotImplemented
         if ko == "complex":
             a, b = SC.lift(self), SC.lift(other)
@@ -477,29 +483,48 @@ class SC:
             return None
         return SC.lift(o)
 
+    def _arr(self, o, name):
+        import numpy as _np
+        if isinstance(o, _np.ndarray):
+            out = _np.empty(o.shape, dtype=object)
+            for i in _np.ndindex(o.shape):
+                out[i] = getattr(self, name)(o[i])
+            return out
+        return None
+
     def __add__(self, o):
+        r = self._arr(o, "__add__")
+        if r is not None: return r
         o = self._lift_other(o)
         if o is None: return NotImplemented
         return SC(self.re + o.re, self.im + o.im)
     __radd__ = __add__
 
     def __sub__(self, o):
+        r = self._arr(o, "__sub__")
+        if r is not None: return r
         o = self._lift_other(o)
         if o is None: return NotImplemented
         return SC(self.re - o.re, self.im - o.im)
 
     def __rsub__(self, o):
+        r = self._arr(o, "__rsub__")
+        if r is not None: return r
         o = self._lift_other(o)
         if o is None: return NotImplemented
         return SC(o.re - self.re, o.im - self.im)
 
     def __mul__(self, o):
+        r = self._arr(o, "__mul__")
+        if r is not None: return r
         o = self._lift_other(o)
         if o is None: return NotImplemented
         return SC(_mul(self.re, o.re) - _mul(self.im, o.im), _mul(self.re, o.im) + _mul(self.im, o.re))
     __rmul__ = __mul__
 
     def __truediv__(self, o):
+        r = self._arr(o, "__truediv__")
+        if r is not None: return r
         o = self._lift_other(o)
         if o is None: return NotImplemented
         den = _mul(o.re, o.re) + _mul(o.im, o.im)
@@ -508,6 +533,8 @@ class SC:
         return SC(n.re / den, n.im / den)
 
     def __rtruediv__(self, o):
+        r = self._arr(o, "__rtruediv__")
+        if r is not None: return r
         o = self._lift_other(o)
         if o is None: return NotImplemented
         return o.__truediv__(self)
